@@ -45,8 +45,10 @@ def lockfacts_hook(ctx):
         ncases = sum(1 for _ in open(os.path.join(rundir, "cases.txt")))
         seen = set()
         for l in open(fpath):
-            if l.strip():
+            try:
                 seen.add(json.loads(l)["class"])
+            except Exception:
+                pass  # a truncated last line when the drive process was killed: the harness-run obligation reports that
         extra["race_classes_seen"] = sorted(seen)
         missing = []
         for k in sorted(flagged):
